@@ -755,6 +755,12 @@ theorem pubkey_never_replaced {env : Env} {A A' : Accounts} {tx : Tx} (h : anteA
 
 /-! ### Application wiring (table `Gen.App`) -/
 
+/-- no decorator of app/ante returns success without calling `next` (`Gen.App.anteEarlyAccepts` lists every `return`
+of an `AnteHandle` method that is neither `next(...)` nor an error): by `App.accepted_passed_all` every accepted
+transaction has then passed every decorator of the chain - in particular signature verification and the sequence
+increment, whatever the decorators in front of them decide. -/
+theorem no_decorator_accepts_early : Sekai.Gen.App.anteEarlyAccepts = [] := by decide +kernel
+
 /-- The ante chain the `Auth` model stands for: the public key is installed before signatures are verified, the
 sequence number is incremented only after verification, and each of the three decorators is in the chain exactly
 once (a chain without `NewSigVerificationDecorator`, or with the increment first, is not the modelled one). -/
